@@ -406,11 +406,15 @@ let cidr_oracle (ip : n list) (cidr : n list) : bool =
                 ( String.sub cs 0 i,
                   if l <> "" && String.length l <= 3 && String.for_all (fun c -> c >= '0' && c <= '9') l then Some (int_of_string l) else None )
           in
+          (* the cidr crate is lenient about the text (leading zeros, short forms, "+8"): only
+             canonical texts are computed, everything else is left to the implementation *)
+          let canon_len = match len with Some l -> string_of_int l = (match String.index_opt cs '/' with Some i -> String.sub cs (i + 1) (String.length cs - i - 1) | None -> "32") | None -> false in
           match (parse_v4_text net, len) with
-          | Some nv, Some l when l <= 32 ->
-              if x_cidr_net_ok (n_of_int 32) (n_of_int l) (n_of_int nv) then x_cidr_contains (n_of_int 32) (n_of_int l) (n_of_int nv) (n_of_int a)
+          | Some nv, Some l when canon_len ->
+              if l > 32 then false
+              else if x_cidr_net_ok (n_of_int 32) (n_of_int l) (n_of_int nv) then x_cidr_contains (n_of_int 32) (n_of_int l) (n_of_int nv) (n_of_int a)
               else false
-          | _ -> false)
+          | _ -> raise Opaque)
 
 let rec show_ty = function
   | TyStr -> "string" | TyInt -> "integer" | TyBool -> "boolean"
@@ -545,6 +549,9 @@ let run_line ovf line =
         | "dispatch" -> dispatch args
         | "milu_parse" -> milu_parse args
         | "milu_eval" -> milu_eval args
+        | "milu_wf" -> (match args with
+            | [ h ] -> (match x_milu_parse (unhex h) with POk (e, _) -> if x_wf_lfb e then "WF" else "NOT-WF" | _ -> "SYNTAX")
+            | _ -> "BAD-ARGS")
         | "socks_req_read" -> socks_req_read args
         | "socks_req_write" -> socks_req_write args
         | "socks_resp_read" -> socks_resp_read args
